@@ -517,4 +517,135 @@ theorem motion_in_space_spec (α δ r v μα μδ t : ℝ) (hr : r ≠ 0)
     have hab : |arctan (P.2.2 / √(P.1 ^ 2 + P.2.1 ^ 2))| < 2 * π := by
       rw [abs_lt]; constructor <;> linarith [pi_pos]
     apply a_of_rad_bounds hab <;> linarith
+/-! ### the near-pole branch inside the property's domain (±5 centuries) -/
+
+/-- Below one turn of arcseconds nothing is removed: `secCore x = x / 3600`. -/
+theorem secCore_exact {x : ℝ} (_h0 : 0 ≤ x) (h1 : x < 1296000) : secCore x = x / 3600 := by
+  have e60 : (60.0 : ℝ) = 60 := by norm_num
+  have e3600 : (3600.0 : ℝ) = 3600 := by norm_num
+  unfold secCore
+  simp only [e60, e3600, ple, pmod, imod, ofInt]
+  by_cases h60 : (60 : ℝ) ≤ x
+  · have hdiv : (0 : ℝ) ≤ x / 60 := by positivity
+    simp only [h60, decide_true, if_true, ptrunc_of_nonneg hdiv]
+    set m : ℤ := ⌊x / 60⌋ with hm
+    have hmlt : m < 21600 := by
+      rw [hm, Int.floor_lt]; push_cast; rw [div_lt_iff₀ (by norm_num)]; linarith
+    have hm0 : 0 ≤ m := by rw [hm]; exact Int.floor_nonneg.mpr hdiv
+    by_cases hm60 : 60 ≤ m
+    · have hmd : (0 : ℝ) ≤ (m : ℝ) / 60 := by
+        have : (0 : ℝ) ≤ (m : ℝ) := by exact_mod_cast hm0
+        positivity
+      have hfl : ⌊(m : ℝ) / 60⌋ = m / 60 := by
+        have := Int.floor_div_natCast (m : ℝ) 60
+        simpa using this
+      simp only [hm60, if_true, ptrunc_of_nonneg hmd, hfl]
+      have hq : (m / 60) / 360 = 0 := by omega
+      rw [Int.fmod_eq_emod_of_nonneg _ (by norm_num : (0 : ℤ) ≤ 360),
+          Int.fmod_eq_emod_of_nonneg _ (by norm_num : (0 : ℤ) ≤ 60), Int.emod_def, Int.emod_def, hq]
+      push_cast
+      ring
+    · simp only [hm60, if_false]
+      rw [Int.fmod_eq_emod_of_nonneg _ (by norm_num : (0 : ℤ) ≤ 360)]
+      simp
+      ring
+  · simp only [h60, decide_false, Bool.false_eq_true, if_false]
+    simp [Int.fmod]
+
+/-- Below one turn, `Angle(0, 0, s)` is exactly `s / 3600` degrees. -/
+theorem a_of_sec_exact {s : ℝ} (h : |s| < 1296000) : a_of_sec s = s / 3600 := by
+  rw [a_of_sec_eq, secCore_exact (abs_nonneg s) h]
+  have hlt : |s| / 3600 < 360 := by rw [div_lt_iff₀ (by norm_num)]; linarith
+  by_cases hs : s < 0
+  · have h1 : plt s 0.0 = true := by unfold plt; simp; linarith
+    rw [h1, abs_of_neg hs] at *
+    simp only [if_true]
+    rw [a_reduce_of_lt]
+    · norm_num; ring
+    · norm_num; rw [abs_lt]; constructor <;> linarith
+  · have h1 : plt s 0.0 = false := by unfold plt; simp; linarith
+    rw [h1, abs_of_nonneg (not_lt.mp hs)] at *
+    simp only [Bool.false_eq_true, if_false]
+    rw [a_reduce_of_lt]
+    · norm_num
+    · norm_num; rw [abs_lt]; constructor <;> linarith [not_lt.mp hs]
+
+theorem abs_mul_le {x y a b : ℝ} (hx : |x| ≤ a) (hy : |y| ≤ b) : |x * y| ≤ a * b := by
+  rw [abs_mul]; exact mul_le_mul hx hy (abs_nonneg _) (le_trans (abs_nonneg _) hx)
+
+/-- Within ±5 centuries of J2000 (|T| ≤ 5, |t| ≤ 10) the angle θ stays below 6°. -/
+theorem fk5_theta_small {T t : ℝ} (hT : |T| ≤ 5) (ht : |t| ≤ 10) : |fk5_theta T t| ≤ 21600 := by
+  unfold fk5_theta
+  have a1 : |(-0.85330 : ℝ) - 0.000217 * T| ≤ 0.9 := by
+    have := abs_le.mp hT; rw [abs_le]; constructor <;> norm_num <;> linarith
+  have a2 : |T * (-0.85330 - 0.000217 * T)| ≤ 5 * 0.9 := abs_mul_le hT a1
+  have a3 : |-(0.42665 + 0.000217 * T) - 0.041833 * t| ≤ 0.9 := by
+    have := abs_le.mp hT; have := abs_le.mp ht; rw [abs_le]; constructor <;> norm_num <;> linarith
+  have a4 : |t * (-(0.42665 + 0.000217 * T) - 0.041833 * t)| ≤ 10 * 0.9 := abs_mul_le ht a3
+  have a5 : |(2004.3109 : ℝ) + T * (-0.85330 - 0.000217 * T) + t * (-(0.42665 + 0.000217 * T) - 0.041833 * t)| ≤ 2100 := by
+    have b2 := abs_le.mp a2; have b4 := abs_le.mp a4
+    rw [abs_le]; constructor <;> norm_num at b2 b4 ⊢ <;> linarith
+  have := abs_mul_le ht a5
+  linarith
+/-- A star within 5° of the north pole keeps a non-negative declination under a tilt of at most 85°. -/
+theorem polar_z_nonneg {α δ ζr θr : ℝ} (hδ : 85 < δ ∧ δ ≤ 90) (hθ : |θr| ≤ rad 85) :
+    0 ≤ (rotY θr (rotZ ζr (dir α δ))).2.2 := by
+  have hp : 0 < π / 180 := by positivity
+  have hd0 : 0 ≤ rad δ := by unfold rad; exact mul_nonneg (by linarith [hδ.1]) hp.le
+  have hd1 : rad δ ≤ π / 2 := by unfold rad; nlinarith [hδ.2]
+  have hd85 : rad 85 < rad δ := by unfold rad; exact mul_lt_mul_of_pos_right hδ.1 hp
+  have h85 : rad 85 < π / 2 := by unfold rad; nlinarith [pi_pos]
+  have hcd : 0 ≤ cos (rad δ) := cos_nonneg_of_neg_pi_div_two_le_of_le (by linarith [pi_pos]) hd1
+  have hsd : 0 ≤ sin (rad δ) := sin_nonneg_of_nonneg_of_le_pi hd0 (by linarith [pi_pos])
+  have hval : (rotY θr (rotZ ζr (dir α δ))).2.2
+      = cos (rad δ) * cos (rad α + ζr) * sin θr + sin (rad δ) * cos θr := by
+    unfold rotY rotZ dir; simp only; rw [cos_add]; ring
+  rw [hval]
+  have hC := abs_le.mp (abs_cos_le_one (rad α + ζr))
+  have hθ' := abs_le.mp hθ
+  have hct : 0 ≤ cos θr := cos_nonneg_of_neg_pi_div_two_le_of_le (by linarith) (by linarith)
+  -- sin(δ - |θ|) ≥ 0
+  by_cases hpos : 0 ≤ θr
+  · have hs : 0 ≤ sin θr := sin_nonneg_of_nonneg_of_le_pi hpos (by linarith [pi_pos])
+    have key : 0 ≤ sin (rad δ - θr) :=
+      sin_nonneg_of_nonneg_of_le_pi (by linarith) (by linarith [pi_pos])
+    rw [sin_sub] at key
+    have : -(cos (rad δ) * sin θr) ≤ cos (rad δ) * cos (rad α + ζr) * sin θr := by
+      have := mul_nonneg hcd hs
+      nlinarith [mul_nonneg (mul_nonneg hcd hs) (by linarith [hC.1] : (0:ℝ) ≤ 1 + cos (rad α + ζr))]
+    linarith
+  · have hneg : θr < 0 := not_le.mp hpos
+    have hs : sin θr ≤ 0 := by
+      have := sin_nonneg_of_nonneg_of_le_pi (by linarith : 0 ≤ -θr) (by linarith [pi_pos])
+      rw [sin_neg] at this; linarith
+    have key : 0 ≤ sin (rad δ + θr) :=
+      sin_nonneg_of_nonneg_of_le_pi (by linarith) (by linarith [pi_pos])
+    rw [sin_add] at key
+    have : cos (rad δ) * sin θr ≤ cos (rad δ) * cos (rad α + ζr) * sin θr := by
+      have h1 : 0 ≤ cos (rad δ) * (-sin θr) := mul_nonneg hcd (by linarith)
+      nlinarith [mul_nonneg h1 (by linarith [hC.2] : (0:ℝ) ≤ 1 - cos (rad α + ζr))]
+    linarith
+
+/-- Within ±5 centuries of J2000 the `acos` branch is never asked for a negative declination. -/
+theorem fk5_polar_ok (e0 e1 α δ : ℝ) (hδ : 85 < δ ∧ δ ≤ 90)
+    (h0 : |e0 - 2451545| ≤ 182625) (h1 : |e1 - 2451545| ≤ 182625) :
+    0 ≤ (rotY (fk5Theta e0 e1) (rotZ (fk5Zeta e0 e1) (dir α δ))).2.2 := by
+  apply polar_z_nonneg hδ
+  have e1' : (2451545.0 : ℝ) = 2451545 := by norm_num
+  have e2' : (36525.0 : ℝ) = 36525 := by norm_num
+  have hT : |(e0 - 2451545.0) / 36525.0| ≤ 5 := by
+    rw [e1', e2', abs_div, abs_of_pos (by norm_num : (0 : ℝ) < 36525), div_le_iff₀ (by norm_num)]; linarith
+  have ht : |(e1 - e0) / 36525.0| ≤ 10 := by
+    rw [e2', abs_div, abs_of_pos (by norm_num : (0 : ℝ) < 36525), div_le_iff₀ (by norm_num)]
+    have a := abs_le.mp h0; have b := abs_le.mp h1
+    rw [abs_le]; constructor <;> linarith [a.1, a.2, b.1, b.2]
+  have hs := fk5_theta_small hT ht
+  unfold fk5Theta
+  rw [a_of_sec_exact (lt_of_le_of_lt hs (by norm_num))]
+  unfold rad
+  have hp : 0 < π / 180 := by positivity
+  rw [abs_mul, abs_of_pos hp, abs_div, abs_of_pos (by norm_num : (0 : ℝ) < 3600)]
+  apply mul_le_mul_of_nonneg_right _ hp.le
+  rw [div_le_iff₀ (by norm_num)]; linarith
+
 end Pymeeus.Refine.Coords
